@@ -364,5 +364,5 @@ def phases(tier, seed):
         Enum('version-requests', version_request_cases, exhaustive=True,
              note='exact / previous / larger requested version at every (mode, level, version) capacity'),
         Enum('eci', eci_cases, exhaustive=True, note='eci=True byte content at every QR capacity boundary, with and without header'),
-        Search('multi', st.one_of(near_boundary_multi(), near_boundary_multi(), gens.many_segments_case(), gens.make_cases(big=0.05)), n),
+        Search('multi', st.one_of(near_boundary_multi(), near_boundary_multi(), gens.many_segments_case(), gens.crossing_segments_case(), gens.make_cases(big=0.05)), n),
     ]
